@@ -1059,22 +1059,49 @@ func oracle(r *hx.Run, op string, res result, mut string) {
 			r.Fail("consumed-le", fmt.Sprintf("reported %d consumed bytes of %d; op: %s", c, n, short), map[string]string{"oracle": "consumed", "op": f[0], "prims": primKinds(f)})
 		}
 	}
+	// zero-width elements: the signature names the trigger and the API instead of the individual request
+	trigger, api := "", ""
+	switch {
+	case f[0] == "x" && strings.HasPrefix(f[1], "Z:"):
+		api = "serix.Decode"
+		if zTargetOf(strings.Split(f[1], ":")[1]).seq {
+			trigger = "zero-width-sequence-elements"
+		} else {
+			trigger = "zero-width-map-entries"
+		}
+	case f[0] == "d":
+		if p, _ := parseD(f[2:]); zeroSizeSeq(p, false) {
+			trigger, api = "zero-width-sequence-elements", "serializer.ReadSequenceOfObjects"
+		}
+	}
+	sig := func(oracle string) map[string]string {
+		if trigger != "" {
+			return map[string]string{"oracle": oracle, "trigger": trigger, "api": api}
+		}
+
+		return map[string]string{"oracle": oracle, "op": f[0], "prims": primKinds(f)}
+	}
 	// wall time: a decoder call on n bytes that takes more than a second (+ 1 ms per KiB) did not work in
 	// proportion to its input
-	if lim := int64(1_000_000) + int64(n)*1000/1024*1000/1000; res.micros > lim {
-		r.Fail("time-bound", fmt.Sprintf("the call took %d us for %d input bytes; op: %s", res.micros, n, short),
-			map[string]string{"oracle": "time", "op": f[0], "prims": primKinds(f)})
+	if lim := int64(1_000_000) + int64(n)*1000/1024; res.micros > lim {
+		r.Fail("time-bound", fmt.Sprintf("the call took %d us for %d input bytes; op: %s", res.micros, n, short), sig("time-bound"))
 	}
-	// element decodes counted by the counting zero-width type (maps: the item loop must be bounded by the input)
-	if f[0] == "x" && strings.HasPrefix(f[1], "Z:") && !zTargetOf(strings.Split(f[1], ":")[1]).seq &&
-		res.decodes > 64*int64(n)+1024 {
-		r.Fail("iters-bound", fmt.Sprintf("%d element decodes for %d input bytes (bound %d); op: %s", res.decodes, n, 64*n+1024, short),
-			map[string]string{"oracle": "iters", "op": f[0], "prims": primKinds(f)})
+	// iterations: element decodes counted by the counting zero-width type (serix), item callbacks counted by
+	// the interpreter (Deserializer sequences, stream collections): never more than 64 per input byte + 1024
+	iters := res.decodes
+	if (f[0] == "d" || f[0] == "sr") && len(g) >= 2 {
+		idx := 1
+		if g[0] == "ok" || f[0] == "sr" {
+			idx = 2
+		}
+		if len(g) > idx {
+			if v, err := strconv.ParseInt(g[idx], 10, 64); err == nil {
+				iters = v
+			}
+		}
 	}
-	if f[0] == "x" && strings.HasPrefix(f[1], "Z:") && zTargetOf(strings.Split(f[1], ":")[1]).seq {
-		// a sequence of zero-width elements pays its fixed per-round cost as often as its count says (as the
-		// read programs with empty items above): outside the property, only the wall time is bounded here
-		return
+	if iters > 64*int64(n)+1024 {
+		r.Fail("iters-bound", fmt.Sprintf("%d element decodes / item callbacks for %d input bytes (bound %d); op: %s", iters, n, 64*n+1024, short), sig("iters-bound"))
 	}
 	k := uint64(64)
 	switch f[0] {
@@ -1087,16 +1114,12 @@ func oracle(r *hx.Run, op string, res result, mut string) {
 		// of 1 MiB in front of 16 KiB of data
 		k = 16
 	}
-	if f[0] == "d" {
-		// a sequence of items that may consume nothing iterates (and pays the fixed per-item cost) as often as
-		// its count says; the remaining input can hold any number of empty items, so this is outside the property
-		if p, _ := parseD(f[2:]); zeroSizeSeq(p, false) {
-			return
-		}
-	}
 	if f[0] != "j" && res.alloc > 64<<10+k*uint64(n) {
-		r.Fail("alloc-bound", fmt.Sprintf("allocated %d bytes for %d input bytes (bound %d); op: %s", res.alloc, n, 64<<10+k*uint64(n), short),
-			map[string]string{"oracle": "alloc", "op": f[0], "prims": primKinds(f)})
+		o := "alloc"
+		if trigger != "" {
+			o = "alloc-bound"
+		}
+		r.Fail("alloc-bound", fmt.Sprintf("allocated %d bytes for %d input bytes (bound %d); op: %s", res.alloc, n, 64<<10+k*uint64(n), short), sig(o))
 	}
 }
 
